@@ -656,11 +656,12 @@ def durable_stage(pid, tier, seed, rundir):
     core.build(['procx'])
     nbeh, steps = (40, 8) if tier == 'quick' else (400, 10)
     scen = f'{rundir}/durable.ndjson'
-    p = core.sh(f'{V}/bin/durgen.sh {nbeh} {steps} {seed} {scen}')
+    if os.path.exists(scen): os.remove(scen)
+    p = core.sh(f'{V}/bin/durgen.sh {nbeh} {steps} {seed} {scen} FALSE && {V}/bin/durgen.sh {max(10, nbeh // 3)} 6 {seed} {scen} TRUE')
     lines = open(scen).read().splitlines() if os.path.exists(scen) else []
     if not lines:
         print(p.stdout, p.stderr); core.die('TLC could not generate behaviours from DurableGen.tla')
-    lines = lines[:nbeh * 2]
+    lines = [l for l in lines if '"cold": false' in l or '"cold":false' in l][:nbeh * 2] + [l for l in lines if '"cold": true' in l or '"cold":true' in l][:nbeh]
     open(scen, 'w').write('\n'.join(lines) + '\n')
     meta = {}
     for l in lines:
@@ -686,7 +687,7 @@ def durable_stage(pid, tier, seed, rundir):
             if count and count % per == 0 and cur:
                 chunks.append(cur); cur = []
             count += 1
-            e = dict(e='begin', sid=e['sid'], ops=m['ops'])
+            e = dict(e='begin', sid=e['sid'], ops=m['ops'], cold=bool(m.get('cold', False)))
         elif e['e'] == 'step':
             st = m['steps'][e['k']]
             e = dict(e='step', sid=e['sid'], i=st['i'], role=st['role'], do=e['do'], name=e.get('name', ''), replied=e['replied'],
@@ -711,7 +712,7 @@ def durable_stage(pid, tier, seed, rundir):
     for i, c in enumerate(chunks):
         fp = f'{rundir}/dchunks/c{i}.ndjson'; open(fp, 'w').write('\n'.join(c) + '\n'); files.append(fp)
     invs = ['C06_AckedSurvives', 'C06_AllOrNothing', 'C06_Restarts', 'C06_Resumes', 'Playable']
-    consts = '  Known = {}\n  Promises = {"a", "b"}\n  MaxSteps = 1000\n'
+    consts = '  Known = {}\n  Promises = {"a", "b"}\n  MaxSteps = 1000\n  Cold = FALSE\n'
     with ThreadPoolExecutor(max_workers=8) as ex:
         rs = list(ex.map(lambda a: tlc_trace('DurableTrace.tla', a[1], invs, f'{rundir}/dv{a[0]}', extra_consts=consts, spec='TSpec'), enumerate(files)))
     viol = None
